@@ -14,6 +14,14 @@ RULE = ("cases = (stamps1, stamps2, max_diff, offset); exact-grid stream (dyadic
 
 
 def gen_cases(ctx):
+    """raw cases + constructor route and pre-read history of the trajectories (seeded)"""
+    for c in gen_cases_raw(ctx):
+        c.setdefault("route", ctx.rng.choice(["xyzquat", "se3"]))
+        c.setdefault("pre", ctx.rng.choice(PRE_READS))
+        yield c
+
+
+def gen_cases_raw(ctx):
     r = ctx.rng
     n_grid = 1500 if not ctx.thorough else 6000
     n_rand = 200 if not ctx.thorough else 400
@@ -59,17 +67,40 @@ def gen_cases(ctx):
         yield {"kind": "random", "shape": shape, "s1": s1, "s2": s2, "md": md, "off": off}
 
 
-def make_traj(stamps, tid):
+PRE_READS = [[], ["poses_se3"], ["positions_xyz"], ["orientations_quat_wxyz"], ["poses_se3", "orientations_quat_wxyz"],
+             ["check"], ["positions_xyz", "poses_se3"]]
+
+
+def make_traj(stamps, tid, route="xyzquat", pre=()):
+    """a trajectory whose pose k is identifiable (x = k); `route` = constructor route, `pre` = which lazily
+    cached representations are materialised before the call under test (a stale cache must not be masked)"""
     from evo.core.trajectory import PoseTrajectory3D
     n = len(stamps)
     xyz = np.array([[float(k), float(2 * k + 1), float(tid)] for k in range(n)])
     ang = np.array([0.1 * (k + 1) + tid for k in range(n)])
-    quat = np.column_stack([np.cos(ang / 2), np.zeros(n), np.zeros(n), np.sin(ang / 2)])
-    return PoseTrajectory3D(positions_xyz=xyz, orientations_quat_wxyz=quat, timestamps=np.array(stamps, dtype=float))
+    if route == "se3":
+        poses = []
+        for k in range(n):
+            c, s_ = np.cos(ang[k]), np.sin(ang[k])
+            m = np.eye(4)
+            m[:3, :3] = [[c, -s_, 0.0], [s_, c, 0.0], [0.0, 0.0, 1.0]]
+            m[:3, 3] = xyz[k]
+            poses.append(m)
+        tr = PoseTrajectory3D(poses_se3=poses, timestamps=np.array(stamps, dtype=float))
+    else:
+        quat = np.column_stack([np.cos(ang / 2), np.zeros(n), np.zeros(n), np.sin(ang / 2)])
+        tr = PoseTrajectory3D(positions_xyz=xyz, orientations_quat_wxyz=quat, timestamps=np.array(stamps, dtype=float))
+    for view in pre:
+        if view == "check":
+            tr.check()
+        else:
+            getattr(tr, view)
+    return tr
 
 
 def snap(tr):
-    return (tr.timestamps.tobytes(), tr.positions_xyz.tobytes(), tr.orientations_quat_wxyz.tobytes())
+    return (tr.timestamps.tobytes(), tr.positions_xyz.tobytes(), tr.orientations_quat_wxyz.tobytes(),
+            b"".join(np.asarray(m).tobytes() for m in tr.poses_se3))
 
 
 def run_impl(case):
@@ -86,24 +117,36 @@ def run_impl_(case):
     i1, i2 = sync.matching_time_indices(s1, s2, case["md"], case["off"])
     out = {"match": list(zip(map(int, i1), map(int, i2))),
            "match_inputs_unchanged": s1.tobytes() == b1 and s2.tobytes() == b2}
-    t1, t2 = make_traj(case["s1"], 1), make_traj(case["s2"], 2)
-    before = (snap(t1), snap(t2))
+    route, pre = case.get("route", "xyzquat"), case.get("pre", [])
+    t1, t2 = make_traj(case["s1"], 1, route, pre), make_traj(case["s2"], 2, route, pre)
+    # twins built the same way are what the inputs must still look like afterwards; the objects under test
+    # are not read before the call beyond what `pre` says
+    w1, w2 = make_traj(case["s1"], 1, route, pre), make_traj(case["s2"], 2, route, pre)
+    before = (snap(w1), snap(w2))
     try:
         o1, o2 = sync.associate_trajectories(t1, t2, case["md"], case["off"])
         ids = []
         exact = True
-        for o, t in ((o1, t1), (o2, t2)):
-            k = [int(round(p[0])) for p in o.positions_xyz]
+        for o, w in ((o1, w1), (o2, w2)):
+            k = [int(round(m[0, 3])) for m in o.poses_se3]
             ids.append(k)
+            n_out = len(k)
+            if not (o.positions_xyz.shape[0] == n_out and o.orientations_quat_wxyz.shape[0] == n_out
+                    and len(o.timestamps) == n_out and o.num_poses == n_out):
+                exact = False
+                continue
             for a, idx in enumerate(k):
-                if not (0 <= idx < t.num_poses and o.timestamps[a].tobytes() == t.timestamps[idx].tobytes()
-                        and o.positions_xyz[a].tobytes() == t.positions_xyz[idx].tobytes()
-                        and o.orientations_quat_wxyz[a].tobytes() == t.orientations_quat_wxyz[idx].tobytes()):
+                if not (0 <= idx < w.num_poses and o.timestamps[a].tobytes() == w.timestamps[idx].tobytes()
+                        and o.positions_xyz[a].tobytes() == w.positions_xyz[idx].tobytes()
+                        and o.orientations_quat_wxyz[a].tobytes() == w.orientations_quat_wxyz[idx].tobytes()
+                        and np.asarray(o.poses_se3[a]).tobytes() == np.asarray(w.poses_se3[idx]).tobytes()):
                     exact = False
         out["assoc"] = {"ids1": ids[0], "ids2": ids[1], "copies_exact": exact,
                         "n1": int(o1.num_poses), "n2": int(o2.num_poses),
                         "independent": not (np.shares_memory(o1.timestamps, t1.timestamps)
-                                            or np.shares_memory(o2.positions_xyz, t2.positions_xyz))}
+                                            or np.shares_memory(o2.positions_xyz, t2.positions_xyz)
+                                            or any(a is b for a in o1.poses_se3 for b in t1.poses_se3)
+                                            or any(a is b for a in o2.poses_se3 for b in t2.poses_se3))}
     except sync.SyncException:
         out["assoc"] = "E_SYNC"
     out["assoc_inputs_unchanged"] = (snap(t1), snap(t2)) == before
@@ -157,6 +200,7 @@ def judge(ctx, case, impl, outs):
     oracle(ctx, case, impl, sl)
     # ---- coverage bookkeeping
     ctx.count("dist", case["kind"] + ":" + case.get("shape", ""))
+    ctx.count("dist", "route:" + case.get("route", "xyzquat") + "/pre:" + "+".join(case.get("pre", [])))
     ctx.count("dist", "len1%s2" % ("<" if len(case["s1"]) < len(case["s2"]) else "=" if len(case["s1"]) == len(case["s2"]) else ">"))
     ctx.count("dist", "offset" + ("0" if case["off"] == 0 else "+" if case["off"] > 0 else "-"))
     if model_assoc == "E_SYNC":
